@@ -4,6 +4,7 @@ import (
 	"context"
 	"fmt"
 	"github.com/vipnode/vipnode/v2/jsonrpc2"
+	"math"
 	"math/rand"
 	"net/http/httptest"
 	"sort"
@@ -278,6 +279,11 @@ func c08One(ctx *Ctx, i int, rng *rand.Rand, allowStall bool) {
 	if legacyCap {
 		num, kind, via = []int{0, 0, -2}[rng.Intn(3)], []string{dirKind, ""}[rng.Intn(2)], "vipnode_client"
 	}
+	if !directed && !legacyCap && !agedPeer && !reKind && maxh == 0 && via == "vipnode_peer" && (i/2)%8 == 4 {
+		// as many hosts as a count can say: the supply is what limits the answer
+		num = []int{math.MaxInt64, math.MaxInt64 - 1, 1 << 62, 1 << 40, math.MaxInt32 + 1}[rng.Intn(5)]
+		ctx.Count("directed-huge-count")
+	}
 	if reKind {
 		num, kind, via = 4+rng.Intn(3), dirKind, []string{"vipnode_peer", "vipnode_client"}[rng.Intn(2)]
 	}
@@ -488,6 +494,10 @@ func runC09(ctx *Ctx) {
 		}
 		if ctx.Want(n + 100 + drv) {
 			c09OldConnectionKeepalive(ctx, n+100+drv, drv)
+		}
+		if ctx.Want(n + 110 + drv) {
+			// every host with a live registered connection is instructed, each on its own connection
+			c03SharedConnection(ctx, n+110+drv, drv, ctx.Sub(n+110+drv))
 		}
 	}
 	forEachCase(ctx, n, func(i int, rng *rand.Rand) {
